@@ -28,7 +28,9 @@ def gen_cases(rng, tier, scale):
         pre = ['pi 1'] if k % 7 == 0 else []
         grp = f'g{k}'
         rep = rng.randint(2, 4)
-        for name, tpl in (('AB', A + '|' + B), ('A', A + '|'), ('B', '|' + B), ('R', (A + '|') * rep)):
+        # every repeated copy sits between two bars (start/end of the template are line boundaries for the
+        # standalone rule, so a copy must not touch them)
+        for name, tpl in (('AB', A + '|' + B), ('A', A + '|'), ('B', '|' + B), ('S', '|' + A + '|'), ('R', '|' + (A + '|') * rep)):
             cases.append(rcase(f'{grp}{name}', tpl, data, pre=pre, partials=parts, entry=0, kind=name, grp=grp, rep=rep,
                                tags=[name]))
     # state probes between siblings
@@ -61,9 +63,9 @@ def oracle_all(byid):
                     if strip(sts[0]) != strip(sts[1]):
                         out.append((c, f'render state differs after a finished construct: {sts[0]} vs {sts[1]}'))
             continue
-        if not all(k in d for k in ('AB', 'A', 'B', 'R')):
+        if not all(k in d for k in ('AB', 'A', 'B', 'R', 'S')):
             continue
-        (cab, ab), (ca, a), (cb, b), (cr, rr) = d['AB'], d['A'], d['B'], d['R']
+        (cab, ab), (ca, a), (cb, b), (cr, rr), (cs, ss) = d['AB'], d['A'], d['B'], d['R'], d['S']
         if a['kind'] == 'ok' and b['kind'] == 'ok':
             exp = a['out'][:-1] + b['out'] if a['out'].endswith('|') else None
             if exp is not None:
@@ -75,8 +77,8 @@ def oracle_all(byid):
             out.append((cab, 'A fails alone but A|B succeeds'))
         elif a['kind'] == 'ok' and b['kind'] == 'err' and ab['kind'] == 'ok':
             out.append((cab, 'B fails alone but A|B succeeds'))
-        if a['kind'] == 'ok':
-            exp = a['out'] * ca['rep']
+        if ss['kind'] == 'ok' and ss['out'].startswith('|'):
+            exp = '|' + ss['out'][1:] * ca['rep']
             if rr['kind'] != 'ok':
                 out.append((cr, f'a construct rendered {ca["rep"]} times fails: {rr.get("reason")} {rr.get("payload")}'))
             elif rr['out'] != exp:
